@@ -61,6 +61,21 @@ CHECKS["C11"] = dict(
     note="Trusted: the reference encoder in harness/c11/ref.go (self-tested against the protocol document's examples). Plain build (no scheduler).",
     design="3/C11")
 
+CHECKS["C05"] = dict(
+    engine="vsched",
+    category="model_checking",
+    technique="explicit-state BFS over protocol-level operation histories replayed on the real server against a reference routing model, plus deviation-bounded schedule exploration of server and Go client under a controlled scheduler",
+    text="Server: BFS (canonical state = joined namespaces per connection) over CONNECT / EVENT / EVENT+ack / DISCONNECT / nsp.Emit / socket.Emit / a cross-namespace ack race on 2 connections x the look-alike namespaces '/', '/a', '/ab', '/a/b' plus a non-existent one; every history is replayed on the real sio.Server through harness-implemented Engine.IO sockets and compared after every step with a routing model (frames per connection, handler invocations and disconnect reports per socket, namespace socket lists, connection closed iff an unjoined namespace was addressed). Two connections in look-alike namespaces run concurrently to the bound. Go client: a raw Engine.IO endpoint (the repo's eio.Server driven by hand) answers the CONNECTs of a 3-socket Manager in all 6 orders with events placed before/after each reply; a second namespace is connected and used at once on an open connection against a real server.",
+    note="Trusted: routing model; rigs R1/R2/R3; vsched semantics. Scope: 2 connections, 5 namespaces, BFS depth 3 (quick) / 4 (thorough), bound 1-2 (quick) / 2-3 (thorough).",
+    design="3/C05")
+CHECKS["C09"] = dict(
+    engine="seq",
+    category="exploration",
+    technique="bounded exhaustive enumeration of packets of a grammar against an independent v5 reference encoder, round trip through the real decoder, input snapshot comparison and re-encoding",
+    text="Every packet of a bounded grammar (5 types x 6 namespaces x 8 boundary ack ids; every event name of length <= 2(3) over a hostile alphabet incl. quote, backslash, brackets, comma, unicode; argument trees of <= 3 values, depth <= 2 over numbers, booleans, nil, strings, Binary leaves, []any, maps, structs, pointers, typed containers), each dimension enumerated completely against representatives of the others. Oracles: frames equal an independent reference encoder (placeholders canonically renumbered), Add+decode into the emitted static types reproduces type/namespace/id/name/arguments with byte-identical attachments in place, a deep snapshot of the caller's values is unchanged by Encode, and a second Encode yields the same frames.",
+    note="Trusted: reference encoder and JSON reader/writer in harness/c09 (no encoding/json). Plain build. Known findings: Encode substitutes placeholders in place (recorded, not repaired).",
+    design="3/C09")
+
 NOT_APPLICABLE = {
 }
 
